@@ -7,7 +7,8 @@ IDS=${@:-$(ls seeded | grep '^C[0-9]')}
 OUT=seeded/MATRIX.md
 [ $# -eq 0 ] && { echo "| seed | property | result | replay kind |"; echo "|---|---|---|---|"; } > $OUT
 for ID in $IDS; do
-  P=$(python3 -c "import json;print(json.load(open('seeded/$ID/meta.json'))['property'])")
+  # the check that is expected to catch it: the first of caught_by_checks (usually the seed's own property)
+  P=$(python3 -c "import json;m=json.load(open('seeded/$ID/meta.json'));print((m.get('caught_by_checks') or [m['property']])[0])")
   git -C /repo apply "$PWD/seeded/$ID/patch.diff" || { echo "| $ID | $P | PATCH DOES NOT APPLY | |" >> $OUT; continue; }
   L=$(./check $P 2>&1 | grep -v '^WARNING' | tail -2)
   git -C /repo checkout -- .
